@@ -141,6 +141,16 @@ class RecomputingDict(MutableMapping[RuleKey, AbstractStrategy]):
     def __contains__(self, key: object) -> bool:
         return self._flatten(cast(RuleKey, key)) in self.rules
 
+    def __eq__(self, other: object) -> bool:
+        """
+        The strategies are not stored, so two instances hold the same
+        information when they hold the same rules. The inherited comparison
+        would recompute every strategy, labelling new classes as a side effect.
+        """
+        if not isinstance(other, RecomputingDict):
+            return NotImplemented
+        return self.only_equiv == other.only_equiv and self.rules == other.rules
+
 
 class RuleDBForgetStrategy(RuleDBBase):
     def __init__(self) -> None:
